@@ -8,14 +8,18 @@ CFG = {
                   "From DSR Require Import Run_C07.\nOpen Scope N_scope.",
     "case_type": "c07case",
     "judge": "judge",
-    "rule": "A live HttpServer serves a compiled-in family of 73 operations: Path<{v:T}> and Query<{v:T, o:Option<T>, "
+    "rule": "A live HttpServer serves a compiled-in family of 84 operations: Path<{v:T}> and Query<{v:T, o:Option<T>, "
             "#[serde(default)] d:T}> for T in String, u8..u64, i8..i64, bool, char, a unit enum with renamed variants; "
             "mixed query structs (renames, doc comments, Option / default of every kind, nothing required); "
             "#[serde(flatten)] one and two levels deep with string/char/enum leaves and with integer/bool leaves, in "
             "Query and in Path; a multi-variable path; TypedBody JSON (struct with every scalar, Option, default, "
             "nested struct, Option<struct>, Vec, map, flatten; an adjacently tagged enum; a Vec of structs), TypedBody "
             "url-encoded, UntypedBody (declared octet-stream and declared JSON), StreamingBody, MultipartBody, "
-            "Path+Query+body at once; every response type: Ok/Created/Accepted with structs, internally and "
+            "Path+Query+body at once; a body behind other extractors (the extractor-tuple impl hands the endpoint's "
+            "content type to each member's metadata()): body only, Path+body, Query+body, Path+Query+body for "
+            "url-encoded and JSON TypedBody and UntypedBody, Path+body and Query+body for MultipartBody - the request "
+            "body is always built in the media type that is the key of the document's requestBody.content; every "
+            "response type: Ok/Created/Accepted with structs, internally and "
             "externally tagged enums, nested references, maps, vectors, scalars, f64, Option<scalar>, "
             "Option<struct>, FreeformBody; Deleted, UpdatedNoContent, Found, SeeOther, TemporaryRedirect, "
             "HttpResponseHeaders with declared string headers (with body, without body, unnamed), a hand-rolled "
@@ -94,7 +98,7 @@ CFG = {
                 "Option<T> with T referenceable is published as {allOf: [$ref], nullable: true}, valid for null (K7b, "
                 "repaired in /repo by 16fe29f). Relative to: schemars' and serde's "
                 "derives agreeing with their transcriptions. Correspondence on every run: the real document replayed "
-                "against a live server over 73 operations, requests built from the document alone, spec and model "
+                "against a live server over 84 operations, requests built from the document alone, spec and model "
                 "evaluated in Coq on every answer (body validity by valid_oas on the real JSON), the document "
                 "compared structurally with the model, schema2struct compared on seeded schemas.",
         "design_ref": "DESIGN.md §6 C07",
